@@ -133,12 +133,20 @@ func (d *hImpl) step(t []string, cmp func(a, b int) bool) string {
 		return d.el[e]
 	}
 	switch {
-	case t[0] == "init":
-		vs, ok := atois(t[2:])
+	case t[0] == "init" || t[0] == "initc":
+		// `initc <A|B> <cmp> v…`: Init with a comparator that may differ from the one given to New
+		args, c := t[2:], cmp
+		if t[0] == "initc" {
+			if len(t) < 3 || cmpOf(t[2]) == nil {
+				return "bad-op"
+			}
+			args, c = t[3:], cmpOf(t[2])
+		}
+		vs, ok := atois(args)
 		if !ok {
 			return "bad-op"
 		}
-		h.Init(vs, cmp)
+		h.Init(vs, c)
 		// register the new elements in allocation order (= order of vs)
 		cur := heapValues(h)
 		used := map[*heapz.Element[int]]bool{}
@@ -192,6 +200,23 @@ func (d *hImpl) step(t []string, cmp func(a, b int) bool) string {
 			xs = append(xs, x)
 		}
 		return fmt.Sprint(xs)
+	case t[0] == "pushe" && len(t) == 3:
+		// re-push an existing handle (the generator only does it for a detached one)
+		e := elem(t[2])
+		if e == nil {
+			return "bad-op"
+		}
+		h.PushElement(e)
+		return "ok"
+	case t[0] == "setfix" && len(t) == 4:
+		e := elem(t[2])
+		v, ok := atoi(t[3])
+		if e == nil || !ok {
+			return "bad-op"
+		}
+		e.Value = v
+		h.Fix(e)
+		return "ok"
 	}
 	return "bad-op"
 }
@@ -242,9 +267,10 @@ func checkHeap(c core.Case, out []string) *core.Failure {
 	if cmp == nil {
 		return nil
 	}
-	live := [2]map[int]bool{{}, {}} // reference: which element ids each heap holds
-	vals := []int{}                 // reference: value of every element
-	dirty := map[int]bool{}         // elements whose value changed without Fix yet
+	cmps := [2]func(a, b int) bool{cmp, cmp} // the comparator each heap was last initialised with
+	live := [2]map[int]bool{{}, {}}          // reference: which element ids each heap holds
+	vals := []int{}                          // reference: value of every element
+	dirty := map[int]bool{}                  // elements whose value changed without Fix yet
 	// broken[k]: the caller changed a value and went on using the heap without Fix:
 	// nothing about the order is promised any more (until the heap is emptied / re-initialised)
 	broken := [2]bool{}
@@ -259,12 +285,34 @@ func checkHeap(c core.Case, out []string) *core.Failure {
 		}
 		return false
 	}
+	// setValue: the caller wrote e.Value = v without (yet) calling Fix on the owner
+	setValue := func(e, v int) {
+		vals[e] = v
+		for kk := 0; kk < 2; kk++ {
+			if !live[kk][e] {
+				continue
+			}
+			// Fix promises to repair ONE changed element: a second pending change breaks the contract
+			for o := range dirty {
+				if o != e && live[kk][o] {
+					broken[kk] = true
+				}
+			}
+			dirty[e] = true
+		}
+	}
+	var prevCells []cell
 	for i := 0; i < len(c.Lines); i++ {
 		t := core.Toks(c.Lines[i])
 		if out[i] == "bad-op" {
 			return nil
 		}
 		if out[i] == "panic" || out[i] == "dead" {
+			if len(t) == 3 && t[0] == "pushe" {
+				if e, _ := atoi(t[2]); live[0][e] || live[1][e] {
+					return nil // misuse (see below)
+				}
+			}
 			return fail("heap-panic", i, c, out, "a Heap method panicked")
 		}
 		res, lenA, lenB, cells, ok := parseHeapDump(out[i])
@@ -283,7 +331,7 @@ func checkHeap(c core.Case, out []string) *core.Failure {
 			if k >= 0 && !broken[k] && anyDirty(k) {
 				switch t[0] {
 				case "peek", "len":
-				case "fix":
+				case "fix", "setfix":
 					if e := elemArg(); !dirty[e] || !live[k][e] {
 						broken[k] = true
 					}
@@ -292,8 +340,13 @@ func checkHeap(c core.Case, out []string) *core.Failure {
 				}
 			}
 			switch t[0] {
-			case "init":
+			case "init", "initc":
 				vs, _ := atois(t[2:])
+				cmps[k] = cmp
+				if t[0] == "initc" {
+					vs, _ = atois(t[3:])
+					cmps[k] = cmpOf(t[2])
+				}
 				// the previous elements have left the heap
 				for e := range live[k] {
 					delete(dirty, e)
@@ -324,7 +377,7 @@ func checkHeap(c core.Case, out []string) *core.Failure {
 				}
 				if !anyDirty(k) {
 					for o := range live[k] {
-						if cmp(vals[o], vals[e]) {
+						if cmps[k](vals[o], vals[e]) {
 							return fail("heap-"+t[0]+"-min", i, c, out, "element %d (value %d) precedes the returned element %d (value %d)", o, vals[o], e, vals[e])
 						}
 					}
@@ -355,18 +408,36 @@ func checkHeap(c core.Case, out []string) *core.Failure {
 			case "setv":
 				e, _ := atoi(t[1])
 				v, _ := atoi(t[2])
-				vals[e] = v
-				for kk := 0; kk < 2; kk++ {
-					if !live[kk][e] {
-						continue
-					}
-					// Fix promises to repair ONE changed element: a second pending change breaks the contract
-					for o := range dirty {
-						if o != e && live[kk][o] {
-							broken[kk] = true
+				setValue(e, v)
+			case "pushe":
+				e := elemArg()
+				if live[0][e] || live[1][e] {
+					// PushElement of an element that is still in a heap: undocumented misuse,
+					// nothing is promised from here on
+					return nil
+				}
+				if res != "ok" {
+					return fail("heap-format", i, c, out, "unparsable")
+				}
+				// the handle is live again, in heap k (whatever heap it was in before)
+				live[k][e] = true
+			case "setfix":
+				e := elemArg()
+				v, _ := atoi(t[3])
+				if live[k][e] {
+					// e.Value = v; h.Fix(e) on the owner: the one pending change is repaired
+					vals[e] = v
+					delete(dirty, e)
+					break
+				}
+				// stale / foreign handle: the value is written, Fix must not touch anything
+				setValue(e, v)
+				if len(cells) == len(prevCells) {
+					for o := range cells {
+						if cells[o].idx != prevCells[o].idx || (o != e && cells[o].val != prevCells[o].val) {
+							return fail("heap-fix-stale", i, c, out, "Fix with a stale/foreign handle must not change anything but the written Value (before: %s)", tail(out[i-1]))
 						}
 					}
-					dirty[e] = true
 				}
 			case "popall":
 				xs, ok := parseInts(res)
@@ -380,7 +451,7 @@ func checkHeap(c core.Case, out []string) *core.Failure {
 				if !sameMultiset(xs, want) {
 					return fail("heap-popall-multiset", i, c, out, "PopAll must yield exactly the multiset %v", want)
 				}
-				if !anyDirty(k) && !sortedBy(xs, cmp) {
+				if !anyDirty(k) && !sortedBy(xs, cmps[k]) {
 					return fail("heap-popall-sorted", i, c, out, "PopAll is not sorted")
 				}
 				for e := range live[k] {
@@ -420,12 +491,13 @@ func checkHeap(c core.Case, out []string) *core.Failure {
 			}
 			if !anyDirty(k) {
 				for j := 1; j < n; j++ {
-					if cmp(vals[arr[j]], vals[arr[(j-1)/2]]) {
+					if cmps[k](vals[arr[j]], vals[arr[(j-1)/2]]) {
 						return fail("heap-order", i, c, out, "heap %d: element %d at index %d precedes its parent %d", k, arr[j], j, arr[(j-1)/2])
 					}
 				}
 			}
 		}
+		prevCells = cells
 	}
 	return nil
 }
@@ -441,108 +513,302 @@ func keys(m map[int]bool) []int {
 
 // ---------------------------------------------------------------- generator
 
-// The generator keeps an approximate picture (a stable sorted list per heap) only to aim
-// handle choices: 85% live in the heap addressed, 10% stale, 5% of the other heap.
+// The generator keeps its own picture of the two heaps (a plain binary heap of element ids,
+// the textbook sift-up / sift-down) ONLY to aim: which handles are live where, which one is
+// the last / the root, whether a removal would move the substitute up or down, which handles
+// are detached (the only ones `pushe` may re-push). It never sees the implementation; the
+// oracle derives liveness from the implementation's answers, not from this picture.
 type hSim struct {
-	live  [2][]int
-	stale []int
+	arr   [2][]int // heap k: element ids in array order
+	idx   []int    // element -> index in its heap, -1 when detached
+	own   []int    // element -> heap, -1 when detached
+	how   []byte   // how the element was detached last: 'p'op 'r'm 'i'nit 'a'll
 	vals  []int
 	cmp   func(a, b int) bool
+	cmps  [2]func(a, b int) bool // per heap, when an `initc` replaced the comparator (nil: cmp)
+	focus int                    // a handle that was just re-pushed: follow-up ops prefer it
 }
 
-func (g *hSim) popMin(k int) {
-	if len(g.live[k]) == 0 {
+func (g *hSim) less(k, i, j int) bool {
+	c := g.cmp
+	if g.cmps[k] != nil {
+		c = g.cmps[k]
+	}
+	return c(g.vals[g.arr[k][i]], g.vals[g.arr[k][j]])
+}
+func (g *hSim) swap(k, i, j int) {
+	a := g.arr[k]
+	a[i], a[j] = a[j], a[i]
+	g.idx[a[i]], g.idx[a[j]] = i, j
+}
+func (g *hSim) up(k, j int) {
+	for j > 0 {
+		i := (j - 1) / 2
+		if !g.less(k, j, i) {
+			break
+		}
+		g.swap(k, i, j)
+		j = i
+	}
+}
+func (g *hSim) down(k, i0, n int) bool {
+	i := i0
+	for {
+		j := 2*i + 1
+		if j >= n {
+			break
+		}
+		if j+1 < n && g.less(k, j+1, j) {
+			j++
+		}
+		if !g.less(k, j, i) {
+			break
+		}
+		g.swap(k, i, j)
+		i = j
+	}
+	return i > i0
+}
+func (g *hSim) detachLast(k int, how byte) int {
+	n := len(g.arr[k]) - 1
+	e := g.arr[k][n]
+	g.arr[k] = g.arr[k][:n]
+	g.idx[e], g.own[e], g.how[e] = -1, -1, how
+	return e
+}
+func (g *hSim) alloc(v int) int {
+	e := len(g.vals)
+	g.vals = append(g.vals, v)
+	g.idx = append(g.idx, -1)
+	g.own = append(g.own, -1)
+	g.how = append(g.how, 0)
+	return e
+}
+func (g *hSim) attach(k, e int) {
+	g.arr[k] = append(g.arr[k], e)
+	g.idx[e], g.own[e] = len(g.arr[k])-1, k
+	g.up(k, g.idx[e])
+}
+func (g *hSim) pop(k int, how byte) {
+	n := len(g.arr[k])
+	if n == 0 {
 		return
 	}
-	best := 0
-	for i, e := range g.live[k] {
-		if g.cmp(g.vals[e], g.vals[g.live[k][best]]) {
-			best = i
+	g.swap(k, 0, n-1)
+	g.down(k, 0, n-1)
+	g.detachLast(k, how)
+}
+func (g *hSim) remove(k, e int) {
+	if g.own[e] != k {
+		return
+	}
+	n := len(g.arr[k]) - 1
+	if i := g.idx[e]; i != n {
+		g.swap(k, i, n)
+		if !g.down(k, i, n) {
+			g.up(k, i)
 		}
 	}
-	g.stale = append(g.stale, g.live[k][best])
-	g.live[k] = append(append([]int{}, g.live[k][:best]...), g.live[k][best+1:]...)
+	g.detachLast(k, 'r')
+}
+func (g *hSim) fix(k, e int) {
+	if g.own[e] != k {
+		return
+	}
+	if i := g.idx[e]; !g.down(k, i, len(g.arr[k])) {
+		g.up(k, i)
+	}
+}
+func (g *hSim) init(k int, vs []int) {
+	for len(g.arr[k]) > 0 {
+		g.detachLast(k, 'i')
+	}
+	for _, v := range vs {
+		e := g.alloc(v)
+		g.arr[k] = append(g.arr[k], e)
+		g.idx[e], g.own[e] = len(g.arr[k])-1, k
+	}
+	g.build(k)
 }
 
+func (g *hSim) build(k int) {
+	n := len(g.arr[k])
+	for i := n/2 - 1; i >= 0; i-- {
+		g.down(k, i, n)
+	}
+}
+
+// upIndex: an index whose removal makes the substitute (the last element) travel UP
+// (the last element precedes the parent of that index), -1 when there is none.
+func (g *hSim) upIndex(r *core.Rand, k int) int {
+	n := len(g.arr[k])
+	var c []int
+	for i := 1; i < n-1; i++ {
+		if g.less(k, n-1, (i-1)/2) {
+			c = append(c, i)
+		}
+	}
+	if len(c) == 0 {
+		return -1
+	}
+	return c[r.Intn(len(c))]
+}
+
+func (g *hSim) detached() []int {
+	var r []int
+	for e, o := range g.own {
+		if o < 0 {
+			r = append(r, e)
+		}
+	}
+	return r
+}
+
+// pickLive aims inside heap k: the last slot, the root, an element whose removal makes the
+// substitute (the last element) travel UP, or any.
+func (g *hSim) pickLive(r *core.Rand, k int) int {
+	a := g.arr[k]
+	n := len(a)
+	switch r.Pick(14, 8, 22, 56) {
+	case 0:
+		return a[n-1]
+	case 1:
+		return a[0]
+	case 2:
+		if i := g.upIndex(r, k); i >= 0 {
+			return a[i]
+		}
+	}
+	return a[r.Intn(n)]
+}
+
+// pick: 85% a live handle of the heap addressed, 10% a detached one, 5% one of the other heap.
 func (g *hSim) pick(r *core.Rand, k int) int {
 	if len(g.vals) == 0 {
 		return -1
 	}
+	if g.focus >= 0 && r.Chance(35) {
+		e := g.focus
+		if r.Chance(50) {
+			g.focus = -1
+		}
+		return e
+	}
 	for try := 0; try < 4; try++ {
 		switch r.Pick(85, 10, 5) {
 		case 0:
-			if n := len(g.live[k]); n > 0 {
-				return g.live[k][r.Intn(n)]
+			if len(g.arr[k]) > 0 {
+				return g.pickLive(r, k)
 			}
 		case 1:
-			if n := len(g.stale); n > 0 {
-				return g.stale[r.Intn(n)]
+			if d := g.detached(); len(d) > 0 {
+				// half of the time one that an Init discarded, when there is one
+				if r.Bool() {
+					var di []int
+					for _, e := range d {
+						if g.how[e] == 'i' {
+							di = append(di, e)
+						}
+					}
+					if len(di) > 0 {
+						return di[r.Intn(len(di))]
+					}
+				}
+				return d[r.Intn(len(d))]
 			}
 		case 2:
-			if n := len(g.live[1-k]); n > 0 {
-				return g.live[1-k][r.Intn(n)]
+			if n := len(g.arr[1-k]); n > 0 {
+				return g.arr[1-k][r.Intn(n)]
 			}
 		}
 	}
 	return r.Intn(len(g.vals))
 }
 
-func (g *hSim) drop(k, e int) {
-	for i, x := range g.live[k] {
-		if x == e {
-			g.live[k] = append(append([]int{}, g.live[k][:i]...), g.live[k][i+1:]...)
-			g.stale = append(g.stale, e)
-			return
-		}
-	}
-}
-
 func genHeap(r *core.Rand) core.Case {
 	cn := pickCmp(r)
-	g := &hSim{cmp: cmpOf(cn)}
-	tg := &tagger{}
+	g := &hSim{cmp: cmpOf(cn), focus: -1}
 	lines := []string{"@ C04 heap " + cn}
 	names := []string{"A", "B"}
-	newVal := func() int {
-		v := r.Range(0, 5)*1000 + len(g.vals)%1000
-		_ = tg
-		return v
-	}
-	doInit := func(k int) {
-		n := r.Range(0, 8)
-		l := "init " + names[k]
-		g.stale = append(g.stale, g.live[k]...)
-		g.live[k] = nil
-		for i := 0; i < n; i++ {
-			v := newVal()
-			l += " " + strconv.Itoa(v)
-			g.live[k] = append(g.live[k], len(g.vals))
-			g.vals = append(g.vals, v)
+	// key regime: the usual six keys / all keys equal / two keys / many keys
+	regime := r.Pick(62, 8, 10, 20)
+	fixedKey := r.Range(0, 5)
+	exact := regime == 1 && r.Bool() // identical values: equal under lt/gt as well
+	newKey := func() int {
+		switch regime {
+		case 1:
+			if r.Chance(3) {
+				return r.Range(0, 5)
+			}
+			return fixedKey
+		case 2:
+			return fixedKey + r.Intn(2)
+		case 3:
+			return r.Range(0, 60)
 		}
+		return r.Range(0, 5)
+	}
+	valFor := func(e int) int {
+		if exact {
+			return fixedKey * 1000
+		}
+		return newKey()*1000 + e%1000
+	}
+	big := r.Chance(12)
+	doInit := func(k int, first bool) {
+		n := r.Range(0, 8)
+		if big && (first || r.Chance(30)) {
+			n = r.Range(16, 40)
+		}
+		l := "init " + names[k]
+		g.cmps[k] = nil
+		if (first && r.Chance(15)) || (!first && r.Chance(35)) {
+			// Init with its own comparator (often another one than New got)
+			c := pickCmp(r)
+			if r.Chance(50) {
+				c = []string{"lt", "gt", "key", "rkey"}[r.Intn(4)]
+			}
+			l = "initc " + names[k] + " " + c
+			g.cmps[k] = cmpOf(c)
+		}
+		vs := make([]int, n)
+		for i := range vs {
+			vs[i] = valFor(len(g.vals) + i)
+			l += " " + strconv.Itoa(vs[i])
+		}
+		g.init(k, vs)
 		lines = append(lines, l)
 	}
-	if r.Chance(60) {
-		doInit(0)
+	if r.Chance(60) || big {
+		doInit(0, true)
 	}
 	if r.Chance(40) {
-		doInit(1)
+		doInit(1, !big || r.Chance(25))
 	}
 	ops := r.Range(1, 60)
+	target := r.Range(1, 14) // below this size pushes dominate, above it removals do
+	if big {
+		ops = r.Range(20, 70)
+		target = r.Range(16, 40)
+	}
 	for len(lines) <= ops {
 		k := 0
 		if r.Chance(30) {
 			k = 1
 		}
 		H := names[k]
-		switch r.Pick(30, 14, 3, 2, 22, 14, 5, 1, initWeight) {
+		pushW := 16
+		if len(g.arr[k]) < target {
+			pushW = 44
+		}
+		switch r.Pick(pushW, 14, 3, 2, 20, 9, 5, 1, initWeight, 9, 9) {
 		case 0:
-			v := newVal()
+			v := valFor(len(g.vals))
 			lines = append(lines, fmt.Sprintf("push %s %d", H, v))
-			g.live[k] = append(g.live[k], len(g.vals))
-			g.vals = append(g.vals, v)
+			g.attach(k, g.alloc(v))
 		case 1:
 			lines = append(lines, "pop "+H)
-			g.popMin(k)
+			g.pop(k, 'p')
 		case 2:
 			lines = append(lines, "peek "+H)
 		case 3:
@@ -553,17 +819,18 @@ func genHeap(r *core.Rand) core.Case {
 				continue
 			}
 			lines = append(lines, fmt.Sprintf("rm %s %d", H, e))
-			g.drop(k, e)
+			g.remove(k, e)
 		case 5:
 			e := g.pick(r, k)
 			if e < 0 {
 				continue
 			}
-			v := r.Range(0, 5)*1000 + e%1000
+			v := valFor(e)
 			lines = append(lines, fmt.Sprintf("setv %d %d", e, v))
 			g.vals[e] = v
 			if !r.Chance(4) {
 				lines = append(lines, fmt.Sprintf("fix %s %d", H, e))
+				g.fix(k, e)
 			}
 		case 6:
 			e := g.pick(r, k)
@@ -571,12 +838,44 @@ func genHeap(r *core.Rand) core.Case {
 				continue
 			}
 			lines = append(lines, fmt.Sprintf("fix %s %d", H, e))
+			g.fix(k, e)
 		case 7:
 			lines = append(lines, "popall "+H)
-			g.stale = append(g.stale, g.live[k]...)
-			g.live[k] = nil
+			for len(g.arr[k]) > 0 {
+				g.pop(k, 'a')
+			}
 		case 8:
-			doInit(k)
+			doInit(k, false)
+		case 9:
+			// re-push a DETACHED handle (popped / removed / discarded by Init), into either heap
+			d := g.detached()
+			if len(d) == 0 {
+				continue
+			}
+			e := d[r.Intn(len(d))]
+			if r.Chance(30) {
+				// with a fresh value first (the element is in no heap: no Fix owed)
+				v := valFor(e)
+				lines = append(lines, fmt.Sprintf("setv %d %d", e, v))
+				g.vals[e] = v
+			}
+			lines = append(lines, fmt.Sprintf("pushe %s %d", H, e))
+			g.attach(k, e)
+			g.focus = e
+		case 10:
+			// e.Value = v; h.Fix(e): live in h (mostly) or detached; an element of the OTHER heap
+			// only with its value unchanged (changing it there without Fix is the caller's breach)
+			e := g.pick(r, k)
+			if e < 0 {
+				continue
+			}
+			v := valFor(e)
+			if g.own[e] == 1-k {
+				v = g.vals[e]
+			}
+			lines = append(lines, fmt.Sprintf("setfix %s %d %d", H, e, v))
+			g.vals[e] = v
+			g.fix(k, e)
 		}
 	}
 	return core.Case{Lines: lines, Tag: "heap"}
@@ -584,3 +883,258 @@ func genHeap(r *core.Rand) core.Case {
 
 // initWeight: weight of re-initialising a heap in the middle of a sequence.
 const initWeight = 2
+
+// ---------------------------------------------------------------- distribution labels
+
+func sizeBucket(n int) string {
+	switch {
+	case n == 0:
+		return "0"
+	case n < 4:
+		return "1-3"
+	case n < 8:
+		return "4-7"
+	case n < 16:
+		return "8-15"
+	case n < 32:
+		return "16-31"
+	}
+	return "32+"
+}
+
+// classifyHeap names the branch of heap.go every call took, read off the implementation's
+// own answers (owner of a handle = replay of the calls and their results).
+func classifyHeap(c core.Case, out []string) []string {
+	var ls []string
+	own := []int{}       // element -> heap holding it, -1 detached
+	how := []string{}    // how it was detached last
+	repushed := []bool{} // has been re-pushed by pushe and is live since
+	var prev []cell      // state before the call
+	n := [2]int{}        // Len of both heaps before the call
+	maxLen := 0
+	sawInitc := false
+	var seenVals []int
+	grow := func(k int) {
+		for len(own) < k {
+			own = append(own, -1)
+			how = append(how, "")
+			repushed = append(repushed, false)
+		}
+	}
+	detach := func(e int, why string) {
+		if e >= 0 && e < len(own) {
+			own[e], how[e], repushed[e] = -1, why, false
+		}
+	}
+	move := func(before, after int) string {
+		switch {
+		case after < before:
+			return ":up"
+		case after > before:
+			return ":down"
+		}
+		return ":stay"
+	}
+	hdr := core.Toks(c.Lines[0])
+	var cmp func(a, b int) bool
+	if len(hdr) >= 4 {
+		cmp = cmpOf(hdr[3])
+	}
+	for i := 0; i < len(c.Lines) && i < len(out); i++ {
+		t := core.Toks(c.Lines[i])
+		if len(t) == 0 {
+			continue
+		}
+		if out[i] == "panic" || out[i] == "dead" || out[i] == "bad-op" {
+			if i > 0 {
+				ls = append(ls, "h:"+t[0]+":"+out[i])
+			}
+			continue
+		}
+		res, lenA, lenB, cells, ok := parseHeapDump(out[i])
+		if !ok {
+			continue
+		}
+		if i == 0 {
+			prev = cells
+			continue
+		}
+		lab := "h:" + t[0]
+		k := -1
+		if len(t) >= 2 {
+			k = heapIdx(t[1])
+		}
+		e := -1
+		if len(t) >= 3 && k >= 0 {
+			e, _ = atoi(t[2])
+		}
+		handleOp := k >= 0 && e >= 0 && e < len(prev) && e < len(cells)
+		grow(len(prev))
+		sameIdx := len(prev) == len(cells)
+		if sameIdx {
+			for o := range cells {
+				if cells[o].idx != prev[o].idx {
+					sameIdx = false
+					break
+				}
+			}
+		}
+		switch t[0] {
+		case "init", "initc":
+			if k < 0 {
+				break
+			}
+			if t[0] == "initc" && len(t) >= 3 {
+				sawInitc = true
+				if len(hdr) >= 4 && t[2] == hdr[3] {
+					ls = append(ls, "h:initc:same-cmp")
+				} else {
+					ls = append(ls, "h:initc:other-cmp")
+				}
+			}
+			if n[k] > 0 {
+				ls = append(ls, "h:init:nonempty")
+			}
+			if n[1-k] > 0 {
+				ls = append(ls, "h:init:other-heap-live")
+			}
+			for o := range own {
+				if own[o] == k {
+					detach(o, "init")
+				}
+			}
+			grow(len(cells))
+			for o := len(prev); o < len(cells); o++ {
+				own[o] = k
+				seenVals = append(seenVals, cells[o].val)
+			}
+			ls = append(ls, "h:init:n="+sizeBucket(len(cells)-len(prev)))
+		case "push":
+			grow(len(cells))
+			if k >= 0 && len(cells) == len(prev)+1 {
+				o := len(prev)
+				own[o] = k
+				seenVals = append(seenVals, cells[o].val)
+				ls = append(ls, "h:push"+move(n[k], cells[o].idx))
+			}
+		case "pushe":
+			if !handleOp {
+				break
+			}
+			switch {
+			case own[e] >= 0:
+				ls = append(ls, "h:pushe:misuse")
+			case how[e] == "":
+				ls = append(ls, "h:pushe:never-attached")
+			default:
+				ls = append(ls, "h:pushe:after-"+how[e])
+			}
+			own[e], repushed[e] = k, true
+			ls = append(ls, "h:pushe"+move(n[k], cells[e].idx))
+		case "pop":
+			if k < 0 {
+				break
+			}
+			switch n[k] {
+			case 0:
+				ls = append(ls, "h:pop:empty")
+			case 1:
+				ls = append(ls, "h:pop:single")
+			}
+			if p, err := strconv.Atoi(res); err == nil && p >= 0 && p < len(own) {
+				if repushed[p] {
+					ls = append(ls, "h:pop:repushed")
+				}
+				detach(p, "pop")
+			}
+		case "peek":
+			if k >= 0 && n[k] == 0 {
+				ls = append(ls, "h:peek:empty")
+			}
+		case "popall":
+			if k < 0 {
+				break
+			}
+			ls = append(ls, "h:popall:n="+sizeBucket(n[k]))
+			for o := range own {
+				if own[o] == k {
+					detach(o, "popall")
+				}
+			}
+		case "rm", "fix", "setfix":
+			if !handleOp {
+				break
+			}
+			if t[0] == "setfix" {
+				if v, ok := atoi(t[len(t)-1]); ok {
+					seenVals = append(seenVals, v)
+				}
+				if sameIdx {
+					lab += ":unchanged"
+				}
+			} else if tail(out[i]) == tail(out[i-1]) {
+				lab += ":unchanged"
+			}
+			d := "h:" + t[0]
+			switch {
+			case own[e] == 1-k:
+				ls = append(ls, d+":foreign")
+			case own[e] < 0:
+				ls = append(ls, d+":stale")
+				if how[e] != "" {
+					ls = append(ls, d+":stale:after-"+how[e])
+				}
+			case t[0] == "rm":
+				if repushed[e] {
+					ls = append(ls, "h:rm:repushed")
+				}
+				last := n[k] - 1
+				if prev[e].idx == last {
+					ls = append(ls, "h:rm:last")
+				} else {
+					for o := range prev {
+						if own[o] == k && prev[o].idx == last {
+							ls = append(ls, "h:rm"+move(prev[e].idx, cells[o].idx))
+						}
+					}
+				}
+				if n[k] == 1 {
+					ls = append(ls, "h:rm:single")
+				}
+				detach(e, "rm")
+			default:
+				if repushed[e] {
+					ls = append(ls, d+":repushed")
+				}
+				ls = append(ls, d+move(prev[e].idx, cells[e].idx))
+			}
+		case "setv":
+			if v, ok := atoi(t[len(t)-1]); ok {
+				seenVals = append(seenVals, v)
+			}
+		}
+		ls = append(ls, lab)
+		prev = cells
+		n = [2]int{lenA, lenB}
+		if lenA > maxLen {
+			maxLen = lenA
+		}
+		if lenB > maxLen {
+			maxLen = lenB
+		}
+	}
+	ls = append(ls, "h:maxlen="+sizeBucket(maxLen))
+	if cmp != nil && len(seenVals) >= 4 && !sawInitc {
+		eq := true
+		for _, v := range seenVals[1:] {
+			if cmp(v, seenVals[0]) || cmp(seenVals[0], v) {
+				eq = false
+				break
+			}
+		}
+		if eq {
+			ls = append(ls, "h:keys:all-equal")
+		}
+	}
+	return ls
+}
